@@ -43,9 +43,13 @@ func (d *Directory) Mangle(callback MangleFunc) (*Mangler, error) {
 		indir:  d.DirLoc,
 		insize: d.Size,
 	}
+	var layout Contiguous
 	for _, f := range d.File {
 		mf := &MangleFile{File: *f, m: m}
 		if err := callback(mf); err != nil {
+			return nil, err
+		}
+		if err := layout.Next(&mf.File); err != nil {
 			return nil, err
 		}
 		if mf.deleted {
@@ -59,6 +63,9 @@ func (d *Directory) Mangle(callback MangleFunc) (*Mangler, error) {
 				return nil, err
 			}
 		}
+	}
+	if err := layout.End(d.DirLoc); err != nil {
+		return nil, err
 	}
 	return m, nil
 }
